@@ -67,6 +67,8 @@ let proto file =
   let prev_clients : (int, int list) Hashtbl.t = Hashtbl.create 8 in
   let prev_status : (int, string) Hashtbl.t = Hashtbl.create 8 in
   let frames = ref 0 in
+  let ever_pending : (int * aclass * n * n, bool) Hashtbl.t = Hashtbl.create 16 in
+  let served_hist : (n * aclass * n, n list) Hashtbl.t = Hashtbl.create 16 in
   let get p = match peer_of !g (n_of_int p) with Some pr -> pr | None -> failwith "no such peer" in
   let ident pr (e : n) : string =
     if n_lt e script_limit then "h" ^ ds e
@@ -253,11 +255,34 @@ let proto file =
              | [ _; _; k; a; v ] -> (try Some (((match k with "1" -> AMesh | "2" -> AImage | _ -> AAudio), nd a), nd v) with _ -> None)
              | _ -> None) (find "DL") in
          let dls = List.map (fun ((k, a), v) -> ((k, a), v)) dls in
+         (* what a finished download delivered must be what the model says the advertised owner serves *)
+         List.iter (fun ((k, a), v) ->
+             (* downloads are asynchronous: the bytes were fetched at some moment between the request and
+                now, so any content the advertised owner has served for the id since then is acceptable;
+                two announcements of one id start two downloads *)
+             let pend = pending_list (get pi) in
+             List.iter (fun ((k', a'), o) -> Hashtbl.replace ever_pending (pi, k', a', o) true) pend;
+             let owners = Hashtbl.fold (fun (p', k', a', o) _ acc -> if p' = pi && k' = k && a' = a then o :: acc else acc) ever_pending [] in
+             incr checked;
+             (match owners with
+              | [] -> diff "%s frame of peer %d: a download of asset %s was applied that the model never started" (where ()) pi (ds a)
+              | _ ->
+                  let served o = try Hashtbl.find served_hist (o, k, a) with Not_found -> [] in
+                  if not (List.exists (fun o -> List.mem v (served o)) owners) then
+                    diff "%s frame of peer %d: downloaded asset %s has content %s, the model's owner(s) served %s" (where ()) pi (ds a) (ds v)
+                      (String.concat "/" (List.map (fun o -> String.concat "," (List.map ds (served o))) owners)))) dls;
          let o = { fo_downloads = dls; fo_conn_events = evs; fo_clients = List.map n_of_int clients_pre; fo_status = st;
                    fo_srv_poll = (if pi = 0 || true then List.map n_of_int froms else []);
                    fo_cli_poll = nat_of_int (List.length froms) } in
          g := gstep !g (StFrame (pn, o));
          let pr = get pi in
+         List.iter (fun ((kn, a), v) ->
+             let k = if kn = n_of_int 1 then Some AMesh else if kn = n_of_int 2 then Some AImage else if kn = n_of_int 3 then Some AAudio else None in
+             match k with
+             | Some k -> let old = try Hashtbl.find served_hist (pn, k, a) with Not_found -> [] in
+                 if not (List.mem v old) then Hashtbl.replace served_hist (pn, k, a) (v :: old)
+             | None -> ()) (cache_list pr);
+         List.iter (fun ((k', a'), o) -> Hashtbl.replace ever_pending (pi, k', a', o) true) (pending_list pr);
          (* panic *)
          let real_panic = find "PANIC" in
          (match real_panic, pr.p_panic with
